@@ -195,7 +195,7 @@ def run_get(h, m, args, query, expect_fault, ctx, res, site):
     return 'ok'
 
 
-def do_program(program, arg_cases, res, tier, site, sample_key):
+def do_program(program, arg_cases, res, tier, site, sample_key, shard=None):
     m = program['services'][0]['methods'][0]
     hs = []
     for cfg in configs(tier):
@@ -228,7 +228,7 @@ def do_program(program, arg_cases, res, tier, site, sample_key):
                         # members of a primitive array are spelled as a repeated key: their order IS the pair order,
                         # so the expectation is the reference reading of this very pair sequence
                         expected = httpcodec.unflatten(h.b, m['args'], order, delim=delim)
-                        ctx = {'program': program, 'args': tagged.enc(expected), 'cfg': h.cfg, 'query': query, 'expect_fault': expect_fault,
+                        ctx = {'program': program, 'args': tagged.enc(expected), 'cfg': h.cfg, 'query': query, 'expect_fault': expect_fault, 'shard': shard,
                                'site': '%s|%s|%s|%s' % (site, label, sp_label, e_label if e_label != 'pct' else o_label)}
                         oc = run_get(h, m, expected, query, expect_fault, ctx, res, ctx['site'])
                         res['evaluations'] += 1
@@ -282,7 +282,7 @@ def run_shard(shard):
     if shard['kind'] == 'sig':
         name, program, cases = sig_programs()[shard['i']]
         res['cov']['programs'] += 1
-        do_program(program, [cases[shard['j']]], res, tier, name, name)
+        do_program(program, [cases[shard['j']]], res, tier, name, name, shard)
     elif shard['kind'] == 'B':
         shp = list(universe.shapes(shard['n']))[shard['lo']:shard['hi']]
         for shape in shp:
@@ -290,7 +290,7 @@ def run_shard(shard):
             res['cov']['programs'] += 1
             vals = universe.shape_assignments(program, root, 12 if tier == 'quick' else 60)
             from vf.props.c01 import shape_sig
-            do_program(program, [('v%d' % i, [v, 7]) for i, v in enumerate(vals)], res, tier, 'B', shape_sig(shape))
+            do_program(program, [('v%d' % i, [v, 7]) for i, v in enumerate(vals)], res, tier, 'B', shape_sig(shape), shard)
     elif shard['kind'] == 'ret':
         for aid, at, vals in ret_cases(tier):
             program = {'tns': TNS, 'classes': [{'n': 'H', 'fields': [['hx', I], ['hs', U], ['hd', ['p', 'DateTime', {}]], ['hb', ['p', 'Boolean', {}]]]}],
